@@ -28,10 +28,10 @@ Local Open Scope N_scope.
 (* switch mirrored from the code: `true` = PlutusList::serialize_as_set writes `self.elems.len()` as the definite
    array length even when it writes the de-duplicated view (the code as found);  `false` = the length of what is
    written (after fixes/C09-set-bytes-length.patch).  Everything below is defined for both values. *)
-Definition set_len_counts_duplicates : bool := true.
+Definition set_len_counts_duplicates : bool := false.
 (* `true` = hash_script_data hashes an EMPTY datum list as `d9 0102 80` (the code as found); `false` = an empty datum
    list counts as "no datums", as in the witness set and in the ledger (after fixes/C09-empty-datums.patch) *)
-Definition empty_datums_hashed : bool := true.
+Definition empty_datums_hashed : bool := false.
 
 (* ------------------------------------------------------------------ Plutus data, lists *)
 
